@@ -51,6 +51,8 @@ theorem Dep_bind_td {m : M α} {f : α → M β} {d d1 : Int} (h1 : Dep m d1) (h
     Dep (m >>= f) d :=
   (Dep_bind h1 h2).cast (by omega)
 
+attribute [irreducible] Dep
+
 /-- a leaf of the `depth` derivation -/
 syntax "dep_leaf" : tactic
 macro_rules
@@ -218,6 +220,7 @@ theorem Dep_builtinAlloca (env : Env) : Dep (builtinAlloca env) 0 := by
 
 theorem Dep_bind_ret {m : M α} {f : α → M β} {P : α → Prop} (h1 : Dep m d1) (hr : Ret m P)
     (h2 : ∀ a, P a → Dep (f a) d2) : Dep (m >>= f) (d1 + d2) := by
+  unfold Dep at *
   intro s b s' ls h
   simp only [bind, M.bind] at h
   split at h
@@ -530,15 +533,16 @@ theorem dbody (env : Env) : (l : NodeList) → okL l = true → Dep (genStmtExpr
     have h2 := dbody env rest h.2
     have h1 := dstmt env n h.1
     cases rest with
-    | cons m rest' => rw [genStmtExprBody]; dep
+    | cons m rest' =>
+      rw [genStmtExprBody] <;> first | (intro _ _ ha hb; cases hb) | dep
     | nil =>
-      cases n <;> first
-        | (rw [genStmtExprBody]; dep)
-        | (rename_i i lhs
-           rw [genStmtExprBody]
-           simp only [okN] at h
-           have := dexpr env lhs h.1
-           dep)
+      cases n with
+      | exprStmt i lhs =>
+        rw [genStmtExprBody]
+        simp only [okN] at h
+        have := dexpr env lhs h.1
+        dep
+      | _ => rw [genStmtExprBody] <;> first | (intro _ _ ha hb; cases ha) | dep
 theorem dargs (env : Env) : (l : NodeList) → okL l = true → ∀ a ∈ genArgs env l, Dep a.gen 0
   | .nil, _ => by
     rw [genArgs]; intro a ha; cases ha
@@ -551,5 +555,11 @@ theorem dargs (env : Env) : (l : NodeList) → okL l = true → ∀ a ∈ genArg
     · exact dexpr env n h.1
     · exact dargs env rest h.2 a ha
 end
+
+
+theorem Dep.elim {m : M α} (h : Dep m d) {s : St} {a : α} {s' : St} {ls : List Line}
+    (hm : m s = .ok (a, s', ls)) : s'.depth = s.depth + d := by
+  unfold Dep at h
+  exact h s a s' ls hm
 
 end ChibiVerif.Lemmas.C20
